@@ -368,6 +368,19 @@ func (m *Mini) stmt(s ast.Stmt, env *menv) (miniCtl, []MV) {
 			return ctlNormal, nil
 		}
 		return ctl, r
+	case *ast.ForStmt:
+		if s.Cond != nil || s.Init != nil || s.Post != nil {
+			m.fail(s, "for loop with a condition is outside the abstraction")
+		}
+		// `for { … }`: one symbolic iteration; falling through means "the next iteration decides"
+		ctl, r := m.block(s.Body.List, &menv{vars: map[types.Object]MV{}, parent: env})
+		switch ctl {
+		case ctlNormal, ctlContinue:
+			return ctlReturn, []MV{MNext{}}
+		case ctlBreak:
+			return ctlNormal, nil
+		}
+		return ctl, r
 	case *ast.BranchStmt:
 		if s.Label != nil {
 			m.fail(s, "labelled branch")
@@ -405,6 +418,26 @@ func (m *Mini) assign(s *ast.AssignStmt, env *menv) {
 			vals = m.call(r, env)
 		case *ast.TypeAssertExpr:
 			v := m.expr(r.X, env)
+			if cv, isConst := v.(constant.Value); isConst {
+				// constant held in an interface: the assertion succeeds iff the asserted type has the constant's kind
+				ok := false
+				if b, isBasic := m.Info.Types[r.Type].Type.Underlying().(*types.Basic); isBasic {
+					switch cv.Kind() {
+					case constant.Bool:
+						ok = b.Info()&types.IsBoolean != 0
+					case constant.Int:
+						ok = b.Info()&types.IsInteger != 0
+					case constant.String:
+						ok = b.Info()&types.IsString != 0
+					}
+				}
+				if ok {
+					vals = []MV{v, constant.MakeBool(true)}
+				} else {
+					vals = []MV{m.zero(m.Info.Types[r.Type].Type), constant.MakeBool(false)}
+				}
+				break
+			}
 			sym, _ := v.(*MSym)
 			if sym == nil || (sym.Dyn == nil && !sym.Nil) {
 				m.fail(s, "type assertion on a value whose dynamic type the abstraction does not track")
@@ -413,7 +446,7 @@ func (m *Mini) assign(s *ast.AssignStmt, env *menv) {
 			if ok {
 				vals = []MV{v, constant.MakeBool(true)}
 			} else {
-				vals = []MV{&MSym{Name: "zero"}, constant.MakeBool(false)}
+				vals = []MV{m.zero(m.Info.Types[r.Type].Type), constant.MakeBool(false)}
 			}
 		default:
 			m.fail(s, "unsupported multi-value assignment")
@@ -462,8 +495,16 @@ func (m *Mini) equal(at ast.Node, a, b MV) bool {
 	if ok1 && ok2 {
 		return constant.Compare(ca, token.EQL, cb)
 	}
-	sa, ok1 := a.(*MSym)
-	sb, ok2 := b.(*MSym)
+	sa, ok1s := a.(*MSym)
+	sb, ok2s := b.(*MSym)
+	// a folded Go constant (bool/int/string held in an interface) is never nil
+	if ok1 && ok2s && sb.Nil {
+		return false
+	}
+	if ok2 && ok1s && sa.Nil {
+		return false
+	}
+	ok1, ok2 = ok1s, ok2s
 	if ok1 && ok2 {
 		if sa.Nil || sb.Nil {
 			return sa.Nil && sb.Nil
